@@ -12,7 +12,7 @@ BUILD = os.path.join(VERIF, ".build")
 ALT = REPO != "/repo"            # mutation dry-runs: VERIF_REPO=/var/tmp/<copy> ./check Cxx quick
 BIN = os.path.join(BUILD, "bin" if not ALT else "bin-" + hashlib.sha1(REPO.encode()).hexdigest()[:10])
 SCRATCH = os.path.join(BUILD, "scratch")
-REPLAYS = os.path.join(VERIF, "replays")
+REPLAYS = os.path.join(VERIF, "replays") if os.environ.get("VERIF_REPO", "/repo") == "/repo" else os.path.join(VERIF, ".build", "replays-alt")
 ALLOWED_AXIOMS = {"propext", "Classical.choice", "Quot.sound"}
 AUDIT_TEMPLATE = """import Lean
 import MODULE
@@ -358,8 +358,10 @@ def load_findings(pid):
 # ---------------------------------------------------------------- evidence
 
 def write_evidence(pid, ev):
-    os.makedirs(os.path.join(VERIF, "evidence"), exist_ok=True)
-    p = os.path.join(VERIF, "evidence", pid + ".json")
+    # dry-runs against a scratch copy (VERIF_REPO) must never overwrite the evidence of /repo itself
+    d = os.path.join(VERIF, "evidence") if not ALT else os.path.join(BUILD, "evidence-alt")
+    os.makedirs(d, exist_ok=True)
+    p = os.path.join(d, pid + ".json")
     tmp = p + ".tmp%d" % os.getpid()
     json.dump(ev, open(tmp, "w"), indent=1, sort_keys=True)
     os.replace(tmp, p)
